@@ -26,6 +26,13 @@ claimed = {c["property_id"] for c in checks}
 nal = [{"property_id": p, "reason": na["reason"][p]} for p in ids if p not in claimed]
 missing = [p for p in ids if p not in claimed and p not in na["reason"]]
 assert not missing, missing
+# properties that have at least one Kani harness (tags `//@ harness .. property=Cxx[,Cyy]` in kani/*.rs)
+import glob as _glob, re as _re
+kani_props = set()
+for _f in _glob.glob(os.path.join(HERE, "kani", "*.rs")):
+    for _m in _re.finditer(r"//@ harness[^\n]*property=([A-Z0-9,]+)", open(_f).read()):
+        kani_props |= set(_m.group(1).split(","))
+
 m = {
     "version": 1,
     "setup_cmd": "./setup.sh",
@@ -39,7 +46,7 @@ m = {
     "engines": [
         {"name": "verus", "path": "tools/vx.py", "serves_properties": sorted(p for p in claimed if reg["property"][p].get("verus")),
          "kind_free_text": "Verus 0.2026.09.13 on function text extracted mechanically from /repo on every run, contracts spliced from contracts/<unit>/splice"},
-        {"name": "kani", "path": "tools/kx.py", "serves_properties": sorted(claimed),
+        {"name": "kani", "path": "tools/kx.py", "serves_properties": sorted(p for p in claimed if p in kani_props),
          "kind_free_text": "Kani 0.68 / CBMC 6.11 on the real crate (scratch copy with #[cfg(kani)] harness modules appended); counterexamples replayed natively"},
     ],
     "checks": checks,
